@@ -1,0 +1,9 @@
+//go:build verif
+
+package spf
+
+import "github.com/foxcpp/maddy/framework/dns"
+
+// VerifSetResolver replaces the DNS resolver of a check.spf instance.
+// Verification harness only (build tag verif); nothing else is touched.
+func VerifSetResolver(c *Check, r dns.Resolver) { c.resolver = r }
